@@ -14,6 +14,7 @@ import PqlModel.Props.C02SplitImperative
 import PqlModel.Props.C02ProgramNames
 import PqlModel.Props.C02SplitIR
 import PqlModel.Props.C03JoinCondIR
+import PqlModel.Props.IRHeadlinesA
 #print axioms Pql.C03.C03_bare_key_rewrite
 #print axioms Pql.C03.C03_quoted_key_not_rewritten
 #print axioms Pql.C03.C03_two_conditions_anded
@@ -61,3 +62,6 @@ import PqlModel.Props.C03JoinCondIR
 #print axioms Pql.JoinCondIR.rewrite_ir
 #print axioms Pql.JoinCondIR.build_ir
 #print axioms Pql.JoinCondIR.builtin_all
+#print axioms Pql.IRHead.C03_join_condition_ir
+#print axioms Pql.IRHead.C03_on_translated_code
+#print axioms Pql.IRHead.C03_on_translated_code_nonvacuous
